@@ -801,14 +801,12 @@ static void check_stats(const char *stats_path)
 				case RSV_EV_STATS_FLUSH:
 					k = 6;
 					break;
-				case RSV_EV_GVT:
-					if(r->rid == 0) {
-						tgv = realloc(tgv, (ntgv + 1) * sizeof(double));
-						tgv[ntgv++] = r->t;
-					}
-					break;
 				default:
 					break;
+			}
+			if(k == 6 && r->rid == 0) { /* the GVT value thread 0 logs in this round (main loop or drain) */
+				tgv = realloc(tgv, (ntgv + 1) * sizeof(double));
+				tgv[ntgv++] = r->t;
 			}
 			if(k < 0)
 				continue;
@@ -870,11 +868,11 @@ static void check_stats(const char *stats_path)
 	/* the GVT column is what thread 0 was told */
 	if(have_trace && res->verdict != RSV_FAIL) {
 		if(ntgv != n_rec)
-			rt_fail("C20", "statistics file: %zu node records but thread 0 was told %zu GVT values", n_rec, ntgv);
+			rt_fail("C20", "statistics file: %zu node records but thread 0 logged %zu GVT rounds", n_rec, ntgv);
 		else
 			for(size_t i = 0; i < n_rec; i++)
 				if(gv[i] != tgv[i]) {
-					rt_fail("C20", "statistics file: GVT column record %zu is %a, the GVT reported in that round was %a", i, gv[i], tgv[i]);
+					rt_fail("C20", "statistics file: GVT column record %zu is %a, the GVT of that round was %a", i, gv[i], tgv[i]);
 					break;
 				}
 	}
